@@ -43,8 +43,8 @@ def run(tier, replay=None):
             # a simulator fault inside a compared step is caught and reported as a mismatch by the harness itself;
             # anything else that kills the process is a failure of the machinery, not a verdict on the property
             raise common.HarnessError("lock-step worker ended with status %s: %s" % (rc, err[-500:]))
-        for k in ("cycles", "cases", "stores", "sysreq", "filtered", "arch_reached", "binaries"):
-            tot[k] = tot.get(k, 0) + js[k]
+        for k in ("cycles", "cases", "stores", "sysreq", "filtered", "arch_reached", "binaries", "from_reset_cases"):
+            tot[k] = tot.get(k, 0) + js.get(k, 0)
         for o in range(16):
             for c in range(3):
                 table[o][c] += js["opc_table"][o][c]
@@ -64,6 +64,7 @@ def run(tier, replay=None):
     v.cov["cases_ended_by_common_range_filter"] = tot.get("filtered", 0)
     v.cov["states_reached_architecturally_from_reset"] = tot.get("arch_reached", 0)
     v.cov["toolchain_binaries_run_from_reset"] = tot.get("binaries", 0)
+    v.cov["random_programs_run_from_reset_after_dirty_registers"] = tot.get("from_reset_cases", 0)
     v.cov["opcode_table"] = {OPC[o]: {"oreg_zero": table[o][0], "oreg_pos": table[o][1], "oreg_neg": table[o][2]} for o in range(16)}
     v.sample({"mode": "grid", "what": "256 bytes x %d planted states per worker" % (ngrid // W + 1)})
     v.sample({"mode": "seq", "what": "execute-driven defined sequences of up to 300 instructions, %d per worker" % (nseq // W + 1)})
